@@ -38,6 +38,7 @@ func init() {
 			"R3: callbacks are invoked with the lock released. " +
 			"R4: the wake-up send is a select with default (never blocks) on a channel created with capacity >= 1 (a token is not lost while the worker is between unlock and select). " +
 			"R5: Less(i,j) is elem[i].fireTime.Before(elem[j].fireTime). " +
+			"R7: the worker that consumed a wake-up token cannot retire before it has slept (with a recomputed timeout) or popped again - decided with path-sensitive constant propagation of the idle-round counter. " +
 			"R6: the worker re-reads the heap under the lock after every wake-up or timer expiry (no path from the select back to the select without Lock), and sleeps/blocks only with the lock released.",
 		NotDecided: "lateness bounds, wind-down time, behaviour under stale wake-up tokens.",
 	})
@@ -881,6 +882,59 @@ func timerLiveRules(c *Ctx, pfx string) {
 		})
 		if n == 0 {
 			c.Decide(pfx+"6", fn, "worker sleeps in a select", nil, false, "the worker has no blocking select")
+		}
+	}
+	// R7 the worker that consumed a wake-up token re-arms: it does not retire before it slept or popped again
+	{
+		fn := r.worker
+		n := 0
+		ir.Instrs(fn, func(in ssa.Instruction) {
+			sel, ok := in.(*ssa.Select)
+			if !ok || !sel.Blocking {
+				return
+			}
+			wakeIdx := -1
+			for i, st := range sel.States {
+				if st.Dir == types.RecvOnly {
+					if _, isWake := loadOfField(st.Chan, r.wake); isWake {
+						wakeIdx = i
+					}
+				}
+			}
+			if wakeIdx < 0 {
+				return
+			}
+			// the block entered when the select index equals wakeIdx
+			for _, b := range fn.Blocks {
+				if len(b.Preds) != 1 {
+					continue
+				}
+				f := ir.EdgeFact(b.Preds[0], b)
+				if f == nil {
+					continue
+				}
+				cm, isCmp := f.Cmp()
+				if !isCmp || cm.Op != token.EQL {
+					continue
+				}
+				ex, isEx := ir.Resolve(cm.X).(*ssa.Extract)
+				k, isC := ir.ConstInt(cm.Y)
+				if !isEx || !isC || ex.Tuple != ssa.Value(sel) || ex.Index != 0 || int(k) != wakeIdx {
+					continue
+				}
+				n++
+				c.NoPath(pfx+"7", "woken worker re-arms before it may retire", b.Instrs[0], ir.Query{Fn: fn, FromBlock: b, TrackConsts: true,
+					Block: func(x ssa.Instruction) bool {
+						if s2, ok := x.(*ssa.Select); ok && s2.Blocking {
+							return true
+						}
+						return heapCall(x, "Pop") != nil
+					}, Target: ir.IsExit},
+					"the worker that took the wake-up token can retire in the same round without recomputing its sleep: the token is consumed, the other workers keep sleeping towards an older deadline, and the newly queued future starts up to an idle period late")
+			}
+		})
+		if n == 0 {
+			c.Decide(pfx+"7", fn, "woken worker re-arms before it may retire", nil, false, "cannot find the wake-up case of the worker's select")
 		}
 	}
 	c.Saw(r.add, r.worker, r.notify, r.less)
